@@ -827,6 +827,7 @@ def boundary_cases():
         head + "struct Foo:\n  0 [+2000] UInt x\n  let y = x\n",
         head + "struct Foo:\n  0 [+1] UInt n\n  1 [+n] UInt x\n  2 [+x] UInt y\n",
         "[enum_case: foo]\n", "struct Foo:\n  [requires: $next == 1]\n  0 [+1] UInt x\n",
+        "enum Ee:\n  AA = 1 >= 1\nstruct Foo:\n  0 [+1] UInt x\n  let y = Ee.AA == Ee.AA\n", "enum Ee:\n  AA = true\n",
         "[(cpp) expected_back_ends: 1]\n", '[(cpp) expected_back_ends: "cpp"]\n', "enum Foo:\n  [is_signed: 1]\n  AA = 1\n",
         "struct Foo:\n  let y = (1 < true) ? 1 : 2\n", "struct Foo(p: UInt[]):\n  0 [+p] UInt a\n",
         "enum Ee:\n  [is_signed: 1 == 1]\n  CC = 3\n", "enum Ee:\n  AA = 1\nstruct Foo:\n  0 [+y] UInt x\n  let y = -Ee.AA\n",
